@@ -2101,7 +2101,10 @@ class _GroupElem(ABC):
         else:
             coordInElem_n = None
 
-        for e in elements_e:
+        # The candidate elements are visited once each, in ascending order: a point on a node or an edge shared by
+        # several elements keeps the reference coordinates of the element visited last, which must be the element of
+        # highest index (the one Mesh.Evaluate_dofsValues_at_coordinates selects as its owner).
+        for e in np.unique(np.asarray(elements_e, dtype=int)):
             # get element's node coordinates (x, y, z)
             coordElem = coord[connect[e]]
 
